@@ -137,6 +137,11 @@ func packTar(
 			return nil // skip it and continue the walk
 		}
 
+		// Tar has no representation for sockets (MetadataToTarHdr panics on them).
+		if fmeta.Type == fs.Type_Socket {
+			return Errorf(rio.ErrPackInvalid, "cannot pack %q: a socket cannot be stored in a tar", fmeta.Name)
+		}
+
 		// Flatten time to seconds.  The tar writer impl doesn't do subsecond precision.
 		//  The writer will always flatten it internally, but we need to do it here as well
 		//  so that the hash and the serial form are describing the same thing.
